@@ -24,6 +24,33 @@ REG = {
          "resolution terminates; each enumerated (book, N, order) is replayed through both public resolve entry points with the order forced.",
     note="Bounded: 3 recipes x limits 1..4 (all shapes), chains up to 6 (quick) / 14 (thorough) recipes x limits up to 12. For more than 8 recipes the "
          "runtime's map order cannot be forced; insertion order is shuffled and the order observed through the hook."),
+ "C04": dict(
+    level="model_checking", design="5/C04",
+    technique="TLA+ specs Lexer.tla (every line over a small alphabet) and Parser.tla (every file of abstract lines) checked exhaustively by TLC; TLC's table / terminal states replayed through the real parser; random long files validated as traces against Trace_Parser.tla",
+    text="TLC decides GrammarSound / NotesNeverEntries (tokenizer transcription vs. documented format) on every short line and RecordsExact / "
+         "LastRecordKept on every short well-formed file; the code is bound by comparing the real parser with TLC's table line -> classification "
+         "and with the predicted callback sequence of every enumerated file in random layout variants, and by trace validation of long files.",
+    note="Bounded: lines <= 5-8 characters over 9-11 symbols, files <= 5-6 abstract lines over 9 kinds. Values: 'correctly rounded' is decided at the "
+         "binding with exact rational arithmetic (math/big), not in TLA+. Trusted: concretiser of layout variants."),
+ "C08": dict(
+    level="model_checking", design="5/C08",
+    technique="TLC: deadlock freedom and termination of Parser.tla / Resolver.tla / Cli.tla (NoPanic); every enumerated file run through 42 command shapes in-process with recover+deadline and on the binary; seeded mutation / random-byte exploration",
+    text="Totality and termination are decided on the specification for every token-level file, callback policy, reader fault and command shape; "
+         "the same family is executed on the real commands, where any panic, fatal error or missed deadline is a violation. Arbitrary bytes are explored by sampling.",
+    note="Token-level inputs are enumerated; arbitrary byte strings are sampled (exploration). Absurd --maxdepth values are outside the quantifier. "
+         "A fatal runtime error kills the driver; it is then pinned down by a synchronous second pass."),
+ "C09": dict(
+    level="model_checking", design="5/C09",
+    technique="TLC on Lexer.tla (MalformedExactly), Parser.tla (LineNumberPhysical, FirstErrorReturned, AllErrorsOnceInOrder) and Cli.tla (MalformedFailsEveryCommand); every terminal state replayed on the parser, lint and every command (in-process and binary)",
+    text="The definition of 'malformed', the physical line number, first-error-wins for commands and all-errors-in-order for lint are invariants "
+         "checked on every small file with malformed lines at every position; the real parser, lint (with and without --silent) and every command shape are held to the predicted events, messages and exit status.",
+    note="lint's exit status after reported malformed lines is not fixed by the statement and is not compared. Orphan entries (before any heading) are outside the statement; the model records that they are ignored."),
+ "C10": dict(
+    level="fault_enumeration", design="5/C10",
+    technique="Parser.tla with a failing reader (every line position, clean and mid-line) checked by TLC and replayed; fault enumeration over every byte offset of small files on the real parser and commands; Cli.tla unreadable/missing placements on every command (failing reader, 70 000-byte line, binary)",
+    text="The reader is made to fail at every byte offset of generated small files and at every line position of every enumerated file; the parser "
+         "and every command must return an error, and the records delivered before it must be a prefix of the complete file's.",
+    note="Offsets exhaustive for files <= 160 bytes, every third offset beyond. On the binary a read failure is realised as an over-long line or a missing file."),
 }
 
 
